@@ -211,6 +211,11 @@ func collectInner(v value, cells map[*value]bool, maps map[*omap]bool) {
 	case *value:
 		collectCells(v, cells, maps)
 	case []value:
+		// the spare capacity belongs to the slice as well: an append writes there
+		full := v[:cap(v)]
+		for i := len(v); i < len(full); i++ {
+			cells[&full[i]] = true
+		}
 		for i := range v {
 			if cells[&v[i]] {
 				continue
